@@ -16,6 +16,9 @@ def run(ctx):
     ctx.assumptions = ['attribute lists sorted by index (documented precondition)']
     from .. import schemespec
     for cfg, prog in ctx.programs().items():
+        from .. import inbounds
+        ni = inbounds.rule_inbounds(ctx, cfg, prog, only=['precompute', 'adjust_precomputed', 'adjust_nondelegable', 'resamplekey', 'sign_precomputed'])
+        ctx.floor('R-INBOUNDS cursor-selected accesses[%s]' % cfg, ni, 12)
         schemes.rule_delegation(ctx, cfg, prog)
         schemes.rule_merge_progress(ctx, cfg, prog)
         schemes.rule_mod_r_subtraction(ctx, cfg, prog)
